@@ -992,35 +992,54 @@ def stream_sequence(chk, i, rng):
 
 
 # ------------------------------------------------------------------ stream: every public entry point that trains or scores
+def bound_argument(original, name, args, kwargs):
+    """The value the call passes for parameter `name` of `original`, however it is spelled (positional or keyword)."""
+    ba = inspect.signature(original).bind(*args, **kwargs)
+    ba.apply_defaults()
+    return ba.arguments[name]
+
+
 class Recording:
     """Records the affinity the objective actually receives: MMD / Wasserstein evaluate (patched on the classes, from
-    outside), and the kernel handed to Kauri's split search and objective (module attributes of gemclus.tree.kauri)."""
+    outside), and the kernel handed to Kauri's split search and objective (every binding of those function objects in the
+    loaded gemclus modules).  Wrappers forward their arguments untouched; a failure of the recording itself is kept in
+    .errors and reported under a harness-error key, never as a finding about the library."""
 
     def __enter__(self):
-        import gemclus.tree.kauri as kmod
-        self.kmod, self.log, self.saved = kmod, [], []
-        log = self.log
+        import sys
+        from gemclus.tree import _utils as kutils
+        self.log, self.saved, self.rebound, self.errors = [], [], [], []
+        log, errors = self.log, self.errors
+
+        def recorder(orig, pname):
+            def wrapper(*args, **kwargs):
+                try:
+                    log.append(bound_argument(orig, pname, args, kwargs))
+                except Exception as e:  # noqa: the recording must never change what the library does
+                    errors.append(f"{getattr(orig, '__qualname__', orig)}: {e!r}")
+                return orig(*args, **kwargs)
+            return wrapper
         for cls in (G.MMDGEMINI, G.WassersteinGEMINI):
             orig = cls.evaluate
-
-            def ev(self_, y_pred, affinity, return_grad=False, _o=orig):
-                log.append(affinity)
-                return _o(self_, y_pred, affinity, return_grad)
             self.saved.append((cls, "evaluate", orig))
-            cls.evaluate = ev
-        for nm, pos in (("find_best_split", 0), ("gemini_objective", 1)):
-            orig = getattr(kmod, nm)
-
-            def wrapped(*a, _o=orig, _p=pos, **k):
-                log.append(a[_p])
-                return _o(*a, **k)
-            self.saved.append((kmod, nm, orig))
-            setattr(kmod, nm, wrapped)
+            cls.evaluate = recorder(orig, "affinity")
+        for func, pname in ((kutils.find_best_split, "kernel"), (kutils.gemini_objective, "kernel")):
+            w = recorder(func, pname)
+            for mn, mod in list(sys.modules.items()):
+                d = getattr(mod, "__dict__", None)
+                if mod is None or not (mn == "gemclus" or mn.startswith("gemclus.")) or not isinstance(d, dict):
+                    continue
+                for nm, val in list(d.items()):
+                    if val is func:
+                        d[nm] = w
+                        self.rebound.append((d, nm, func))
         return self
 
     def __exit__(self, *exc):
         for obj, nm, orig in self.saved:
             setattr(obj, nm, orig)
+        for d, nm, func in self.rebound:
+            d[nm] = func
         return False
 
     def take(self):
@@ -1079,10 +1098,13 @@ def stream_entrypoints(chk, i, rng):
                 if hasattr(e, "_batchify"):
                     orig = e._batchify
 
-                    def batchify(Xb, A=None, random_state=None, _o=orig):
-                        for xb, ab in _o(Xb, A, random_state):
+                    def batchify(*args, _o=orig, **kwargs):
+                        for xb, ab in _o(*args, **kwargs):
                             if name != "KernelRIM":          # which samples, in which order, the next training evaluation sees
-                                rec.log.append(("rows", [int(np.flatnonzero((X == r).all(1))[0]) for r in np.asarray(xb)]))
+                                try:
+                                    rec.log.append(("rows", [int(np.flatnonzero((X == r).all(1))[0]) for r in np.asarray(xb)]))
+                                except Exception as ex:  # noqa: recording only
+                                    rec.errors.append(f"_batchify rows: {ex!r}")
                             yield xb, ab
                     e._batchify = batchify
                 return e
@@ -1127,6 +1149,8 @@ def stream_entrypoints(chk, i, rng):
             if not np.array_equal(entries["fit"][0], entries["fit_predict"][0]):
                 chk.fail(f"entrypoints:{name}.fit_predict:labels", f"{name}({sp}).fit_predict(X{', y=K' if y is not None else ''}) differs from fit(..).labels_",
                          dict(replay, spelling=sp), layer="L3")
+        if rec.errors:
+            chk.fail("harness-error:entrypoints:recording", f"the recording wrappers failed: {rec.errors[:3]}", replay)
     # the spellings describe one and the same affinity: same clustering, score, path, predictions through every entry point
     base = results["named"]
     for sp in spell:
